@@ -94,6 +94,30 @@ func (p *PcClient) getProcessInfo(name string) (*types.ProcessConfig, error) {
 	return &sResp, nil
 }
 
+func (p *PcClient) getProcessLog(name string, offsetFromEnd, limit int) ([]string, error) {
+	url := fmt.Sprintf("http://%s/process/logs/%s/%d/%d", p.address, name, offsetFromEnd, limit)
+	resp, err := p.client.Get(url)
+	if err != nil {
+		return nil, err
+	}
+	defer resp.Body.Close()
+	if resp.StatusCode != http.StatusOK {
+		var respErr pcError
+		if err = json.NewDecoder(resp.Body).Decode(&respErr); err != nil {
+			log.Err(err).Msg("failed to decode err process logs")
+			return nil, err
+		}
+		return nil, errors.New(respErr.Error)
+	}
+	var sResp struct {
+		Logs []string `json:"logs"`
+	}
+	if err = json.NewDecoder(resp.Body).Decode(&sResp); err != nil {
+		return nil, err
+	}
+	return sResp.Logs, nil
+}
+
 func (p *PcClient) getProcessPorts(name string) (*types.ProcessPorts, error) {
 	url := fmt.Sprintf("http://%s/process/ports/%s", p.address, name)
 	resp, err := p.client.Get(url)
